@@ -25,10 +25,12 @@ func runC15(c *Ctx) {
 	c15Epoch(c)
 	// The JIT's higher tiers are the optimiser: "behaves exactly like a fresh baseline compilation" needs the optimiser's
 	// fact discipline. The corresponding C03 rule sets are evaluated here under C15-R9 (same constructs).
-	c.ruleAlias = map[string]string{"C03-R7": "C15-R9", "C03-R8": "C15-R9", "C03-R9": "C15-R9"}
+	c.ruleAlias = map[string]string{"C03-R7": "C15-R9", "C03-R8": "C15-R9", "C03-R9": "C15-R9", "C03-R10": "C15-R9", "C03-R11": "C15-R9", "C03-R12": "C15-R9"}
 	c03Aliasing(c)
 	c03Kill(c)
 	c03Keys(c)
+	c03Rebuild(c)
+	c03Identities(c)
 	c.ruleAlias = nil
 	c.rule("C15-R8", "PAIR: every Lock/RLock in pkg/jit is released on every path to a return")
 	c.Sites["C15-R8#acquire-sites"] = lockReleaseAudit(c, "C15-R8", []string{"pkg/jit"})
@@ -442,6 +444,28 @@ func c15Epoch(c *Ctx) {
 				}}
 				if hit, p := q.after(comp); hit != nil {
 					bad, path = true, p
+				}
+			}
+			// the epoch compared must predate the caller's look at the cache: a helper that is handed the route (and the
+			// tier read from a unit snapshot) must be handed the epoch as well, not read it itself
+			if !bad && unexported(fn.Name()) {
+				takesRoute, takesEpoch := false, false
+				for _, p := range fn.Params {
+					if typeIs(p.Type(), modPath+"/pkg/ast", "Route") {
+						takesRoute = true
+					}
+					if bt, ok := p.Type().Underlying().(*types.Basic); ok && bt.Kind() == types.Uint64 {
+						takesEpoch = true
+					}
+				}
+				readsOwn := false
+				eachInstr(fn, func(_ *ssa.BasicBlock, _ int, x ssa.Instruction) {
+					if isCallTo(x, modPath+"/pkg/jit.JITCompiler.currentEpoch") {
+						readsOwn = true
+					}
+				})
+				if takesRoute && (!takesEpoch || readsOwn) {
+					bad = true
 				}
 			}
 			c.ob("C15-R11", fnKey(fn)+"#publishes-only-in-the-epoch-it-compiled-in:"+pub+"-"+itoa(k), ins.Pos(), !bad, "the result of a compilation is cached without checking that no invalidation happened since the compilation started: an older, slower compilation of the route's previous definition overwrites the unit compiled from the new one and stale code is served from then on", c.blockPath(path)...)
